@@ -122,66 +122,6 @@ pub open spec fn state_matches(r: store::PaymentState, w: World) -> bool {
       inv(*final(w))
 //@ end
 
-//@ fn payment_provider::PaymentProvider::pay
-//@ returns r
-//@ ghostparam Tracked(w): Tracked<&mut World>
-//@ requires#hash
-      req.payment_hash == old(w).hash
-//@ requires#exclusive
-      !old(w).released
-//@ requires#no_rpc_under_lock [C14]
-      !old(w).lock_held
-//@ requires#write_ahead [C08]
-//    the in-flight marker is durable before the pay request is issued
-      store_of(*old(w)) is Pending
-//@ requires#nothing_live [C05]
-      !live(*old(w)) && !old(w).pay_running
-//@ requires#htlcs_still_held [C03,C02]
-      old(w).resolved is None
-//@ requires#covered [C03]
-//    held total >= amount to deliver + policy fee
-      fee_rhs(old(w).pol_base, old(w).pol_ppm, old(w).amount) <= old(w).received
-//@ requires#budget [C03]
-//    (held total as read when the payment was initiated; the held total only grows until resolve)
-      req.max_fee_msat as int <= old(w).received_read - old(w).amount && old(w).received_read <= old(w).received
-//@ requires#delay [C04]
-//    lowest expiry among the HTLCs held when the payment was initiated - height known - safety delta
-      req.max_cltv_delta as int <= max0(old(w).min_expiry_read - old(w).height_read - old(w).cltv_delta as int)
-      && req.max_cltv_delta as int <= old(w).pol_delta as int
-//@ requires#height_is_the_one_known_at_initiation [C04]
-//    the height used is not older than the best height known when the payment was initiated
-      old(w).height_read >= old(w).height_at_init
-//@ requires#amount_rule [C03]
-//    the invoice's own amount for fixed-amount invoices, exactly the declared amount otherwise
-      req.amount_msat == (if old(w).inv_amount is Some { None::<u64> } else { Some(old(w).amount) })
-//@ requires#pays_the_invoice_of_the_hash [C01,C03]
-      req.bolt11@ == old(w).bolt11
-//@ ensures#rely_like
-      rely_env(World { pay_running: true, ..*old(w) }, World { pay_running: true, ..*final(w) }) && final(w).ds == old(w).ds
-      && final(w).faulted == old(w).faulted && !final(w).pay_running
-//@ ensures#ok_is_a_completed_part [C01,C16,C02]
-      r is Ok ==> final(w).complete == Some(r->Ok_0@)
-//@ ensures#err_is_final [C02,C16,C08]
-      r is Err ==> !live(*final(w))
-//@ end
-
-//@ fn payment_provider::PaymentProvider::wait_payment
-//@ returns r
-//@ ghostparam Tracked(w): Tracked<&mut World>
-//@ requires#hash
-      payment_hash == old(w).hash
-//@ requires#no_rpc_under_lock [C14]
-      !old(w).lock_held
-//@ requires#no_pay_running
-      !old(w).pay_running
-//@ ensures#rely
-      rely(*old(w), *final(w))
-//@ ensures#some_is_a_completed_part [C01,C15,C02]
-      (r is Ok && r->Ok_0 is Some) ==> final(w).complete == Some(r->Ok_0->Some_0@)
-//@ ensures#none_means_nothing_live [C02,C05,C15,C08]
-      (r is Ok && r->Ok_0 is None) ==> !live(*final(w))
-//@ end
-
 //@ fn block_watcher::BlockProvider::current_height
 //@ returns r
 //@ ghostparam Tracked(w): Tracked<&mut World>
